@@ -18,10 +18,15 @@ PROP = dict(
                        "Comdex.C09.borrow_step_atomic", "Comdex.C09.failing_step_leaves_no_writes",
                        "Comdex.C09.flagged_borrow_is_backed", "Comdex.C09.v2_borrow_witness_atomic",
                        "Comdex.C09.seize_moves_exactly_collateral", "Comdex.C09.seize_opens_one_auction",
-                       "Comdex.C09.v1_selloff_records", "Comdex.C09.v1_selloff_can_exceed_collateral_counterexample"],
+                       "Comdex.C09.v1_selloff_records", "Comdex.C09.v1_selloff_can_exceed_collateral_counterexample",
+                       "Comdex.C09.v1_borrow_safe_never_seized", "Comdex.C09.v1_msg_borrow_ignores_emode_counterexample",
+                       "Comdex.C09.v1_borrow_seizure_effect", "Comdex.C09.auction_type_follows_whitelisting",
+                       "Comdex.C09.external_liquidation_touches_no_position", "Comdex.C09.keeper_message_is_step_plus_mark",
+                       "Comdex.C09.sweep_live_varbatch_partial", "Comdex.C09.zero_batch_processes_nothing"],
     harness_tests=["TestC09"],
     monitors=["safe_never_seized", "slice_bounds", "seized_within_bound", "seized_within_two_sweeps", "seized_late_after_divergence",
-              "gen1_app3_offset_collision", "gen1_selloff_exceeds_collateral", "seize_exact_collateral", "one_auction", "store_order"],
+              "gen1_app3_offset_collision", "gen1_selloff_exceeds_collateral", "seize_exact_collateral", "one_auction", "store_order",
+              "auction_type", "gen1_msg_borrow_ignores_emode", "external_keeper_isolated", "batch_validated"],
     trusted_base=[KERNEL_TB, HARNESS_TB, DEC_TB,
                   "Model/Liquidation.lean is hand-written from x/liquidation (liquidate_vaults.go, msg_server.go, liquidate_borrow.go "
                   "offset bookkeeping, types/liquidations.go), x/liquidationsV2 (liquidate.go, offset.go, msg_server.go), "
@@ -34,17 +39,22 @@ PROP = dict(
                   "locked vault and the auction) is modelled and compared bit for bit",
                   "Go slicing beyond len but within cap reads phantom entries instead of panicking; the model uses len "
                   "(only reachable with an inconsistent counter)",
-                  "generation-1 borrow sell-off: the amounts of UpdateLockedBorrows are modelled (sellOffV1) and compared through a direct keeper "
-                  "call on a branch; its auction start (LendDutchActivator) and English auctions are not modelled"],
+                  "generation-1 borrow liquidation is modelled end to end (LiquidateBorrows sweep body, MsgLiquidateBorrow, CreateLockedBorrow, "
+                  "UpdateLockedBorrows = sellOffV1, LendDutchActivator / StartLendDutchAuction) and compared through the real BeginBlocker and the "
+                  "real message; additionally the sell-off amounts through a direct keeper call on a branch. Generation-2 English auctions, "
+                  "MsgLiquidateExternalKeeper, MsgAppReserveFunds and SetParams(batch) are modelled and compared through the router / parameter store",
+                  "not modelled: UnLiquidateLockedBorrows / MsgCloseDutchAuctionForBorrow (auction wind-down), stable-rate rebalancing, the collector's "
+                  "surplus / debt auctions"],
     assumptions=["vault ids / borrow ids are unique (they are store keys)",
                  "amounts are non-negative and below 2^63 where the code calls Int64()",
                  "every vault's product, pair and assets exist (stores are referentially consistent)",
                  "surplus/debt auctions of the collector (LiquidateForSurplusAndDebt) are not configured in the harness"],
     rule="each case is one generated population (1-3 apps, 1-3 collateral assets with 6/8/18 decimals, 1-2 debt assets, 1-3 products "
          "per app with random liquidation ratios, batch size 1-7, 3-22 vaults, optionally 2-6 lend borrows) run for 8-60 blocks on the "
-         "real app with closes, creates, aimed prices (ratio at threshold +-), aimed ratios (MinCr = CR +- 1 ulp), interest, price "
-         "(de)activation, ESM / kill switch / whitelisting toggles and liquidate messages between blocks, plus the replayed witnesses and "
-         "the pure-helper calls; distinct = distinct trace text, non-trivial = at least one real call returned ok",
+         "real app with closes, creates, aimed prices of collateral OR debt (ratio at threshold +-), aimed ratios and borrow thresholds "
+         "(= ratio +- 1 ulp), interest, price (de)activation, ESM / kill switch / whitelisting / auction-type toggles, batch-size changes, "
+         "liquidate messages of both generations for vaults and borrows, external-keeper and reserve-funds messages between blocks, plus the "
+         "replayed witnesses and the pure-helper calls; generation-1 populations carry the lend fixture too (s % 4 = 2); distinct = distinct trace text, non-trivial = at least one real call returned ok",
 )
 
 META = dict(
@@ -60,7 +70,11 @@ META = dict(
          "two-sweeps claim is refuted (D9 schedule, replayed on the real code: known finding); the generation-2 vault offset is "
          "independent of the borrow pass and every flagged borrow is backed by a locked vault and an auction (fixes 16be2e4, c15713f); "
          "a processed unsafe position is seized under the property's enabling conditions; seizure moves exactly "
-         "amountIn into auction custody and opens exactly one auction.",
+         "amountIn into auction custody and opens exactly one auction, of the type the whitelisting selects (nothing is seized when no type is "
+         "enabled); generation-1 borrows: the sweep never touches a borrow that is safe under the applicable (e-mode aware) threshold, the effect "
+         "of a sell-off is exactly SeizedV1 (one locked vault, one lend auction), and the MESSAGE's e-mode blindness is refuted by a kernel-"
+         "evaluated witness replayed on the real code (D35); external-keeper / reserve messages touch no position; liveness also for batch sizes "
+         "changed between blocks (any positive sizes).",
     note="Liveness is partial by necessity (the stated two-sweeps bound is false of the code); the refutation is replayed on the real code on "
          "every run and reported under the monitor name seized_within_two_sweeps. Trusted: Lean kernel, hand-written model as far as the correspondence exercises it, Dec model (differentially tested).",
 )
